@@ -2,7 +2,8 @@
 From Coq Require Import String.
 From Coq Require Import List NArith ZArith.
 From TarsV Require Import Base.Hex Idl.Lexer Idl.LexerProofs Idl.Parser Idl.ParserProofs Idl.Corr.
-From TarsV Require Idl.Schema Idl.SchemaProofs Codec.GenCodec Codec.Corr.
+From TarsV Require Import Idl.Print.
+From TarsV Require Idl.Schema Idl.SchemaProofs Idl.PrintProofs Codec.GenCodec Codec.Corr.
 Import ListNotations.
 Open Scope N_scope.
 
@@ -44,6 +45,27 @@ Theorem C16_schema_wf_instance :
   match parse_bytes SchemaProofs.example_idl with OOk m => Schema.env_of_module m | _ => None end = Some SchemaProofs.example_env.
 Proof. exact SchemaProofs.schema_wf_instance. Qed.
 
+(* "valid IDL is accepted and means what it says": the grammar of the supported language is Idl/Print.v (sdecl:
+   enums with plain / "= value" / "= Name" members, constants of every scalar type, structs with require/optional
+   members of every scalar, string, vector, map, user type, fixed arrays and defaults, interfaces with in/out
+   parameters and return values, key[...]); for every well-formed program (no redefinition, distinct tags,
+   literals fit) the parser returns exactly the denoted AST, struct members sorted by tag, and hands it to the
+   analysis.  Token level, and for every byte string the lexer maps to those tokens. *)
+Theorem C16_accepts_grammar_tokens : forall name ds, wf_decls (empty_module name) ds = true ->
+  parse_tokens (print_prog name ds) = match analyze (module_of name ds) with Ok m' => OOk m' | _ => OErr end.
+Proof. exact PrintProofs.parse_print. Qed.
+Theorem C16_accepts_grammar : forall input name ds,
+  wf_decls (empty_module name) ds = true -> tokens_of input = Ok (print_prog name ds) ->
+  parse_bytes input = match analyze (module_of name ds) with Ok m' => OOk m' | _ => OErr end.
+Proof. exact PrintProofs.parse_bytes_print. Qed.
+Theorem C16_accepts_grammar_instance :
+  tokens_of (bs "module M { enum E { A, B = 5, C = B, D }; const unsigned int c = 0x10; struct In { 0 require int x; }; struct S { 7 require map<string, vector<In>> m; 0 optional E e = D; 3 optional In arr[2]; 4 optional float f = 1.5; }; key[S, e, f]; interface I { unsigned byte op(S a, out vector<E> b); void nop(); }; };")
+  = Ok (print_prog (bs "M") PrintProofs.example_prog).
+Proof. exact PrintProofs.parse_print_instance_text. Qed.
+
+Print Assumptions C16_accepts_grammar_tokens.
+Print Assumptions C16_accepts_grammar.
+Print Assumptions C16_accepts_grammar_instance.
 Print Assumptions C16_schema_wf.
 Print Assumptions C16_schema_wf_instance.
 Print Assumptions C16_lexer_consumes.
